@@ -50,6 +50,16 @@ type Run struct {
 	known      []string
 	kf         *KnownFindings
 	distinct   map[string]bool
+	vacuous    []string
+}
+
+// Vacuous records that a class the check must exercise was never exercised.
+// It is an internal error (exit 2) unless violations were found, in which
+// case the violations are what gets reported.
+func (r *Run) Vacuous(format string, a ...any) {
+	r.mu.Lock()
+	r.vacuous = append(r.vacuous, fmt.Sprintf(format, a...))
+	r.mu.Unlock()
 }
 
 // Violation is one reported violation.
@@ -263,6 +273,12 @@ func (r *Run) Finish() int {
 	}
 	if len(r.violations) > 0 {
 		return 1
+	}
+	if len(r.vacuous) > 0 {
+		for _, v := range r.vacuous {
+			fmt.Printf("INTERNAL-ERROR: vacuous: %s\n", v)
+		}
+		return 2
 	}
 	fmt.Printf("OK property=%s tier=%s wall=%.1fs\n", r.Property, r.Tier, time.Since(r.start).Seconds())
 	return 0
